@@ -233,6 +233,26 @@ pub fn check_c30(case: &Case30, t: &mut Tally) -> CaseResult {
             }
         }
     }
+    // ids handed out by the document with the LARGEST actor table (the merged one) must resolve in every smaller
+    // document that contains the object: their actor-index hint can lie outside the smaller table
+    let merged_ix = docs.len() - 2;
+    let merged_bat = catch("battery", || read_battery(&docs[merged_ix], None, *pick, "C30"))??;
+    for (di, d) in docs.iter().enumerate().take(merged_ix) {
+        let bat = catch("battery", || read_battery(d, None, *pick, "C30"))??;
+        for (big, ty) in merged_bat.objects.iter().filter(|(o, _)| *o != ROOT) {
+            if let Some((native, _)) = bat.objects.iter().find(|(o, _)| exid(o) == exid(big)) {
+                ensure!(d.object_type(big).ok() == Some(*ty), "C30:foreign-hint:type", "document {di} contains object {:?}, but the id handed out by the merged document reads as {:?}", exid(big), d.object_type(big).map_err(|e| e.to_string()));
+                let (ra, rb) = (catch("reads via the merged document's id", || reads(d, big))?, reads(d, native));
+                ensure!(ra == rb, "C30:foreign-hint:reads-differ", "document {di}: reads through the id handed out by the merged document {:?} differ from reads through its own id {:?}", ra, rb);
+                let hint = |o: &ObjId| if let ObjId::Id(_, _, i) = o { Some(*i) } else { None };
+                if hint(big) != hint(native) {
+                    t.class("merged_id_in_smaller_document");
+                    nontrivial = true;
+                }
+                t.extra_evals += 1;
+            }
+        }
+    }
     if nontrivial {
         t.nontrivial();
         t.sample = Some(p.describe());
